@@ -27,6 +27,8 @@ DECIDED_R7 = ('Round 7: the spooled body stays open while the response is produc
 DECIDED = DECIDED + ' ' + DECIDED_R7
 DECIDED_R8 = ('Round 8: the framing readers and wsgi.input are used by _body_read only; a failed switch to the temporary file ends the reader; the accessors hand the body buffer to iter_items only.')
 DECIDED = DECIDED + ' ' + DECIDED_R8
+DECIDED_R9 = ('Round 9: `copy()` hands the configuration to the copy (b); the read total may travel through copies (e).')
+DECIDED = DECIDED + ' ' + DECIDED_R9
 NOT_DECIDED = ('framing overhead of pathological chunking (1-byte chunks); memory used by the interpreter for the objects '
                'themselves.')
 ASSUMPTIONS = ['wsgi.input.read(n) returns at most n bytes', 'TemporaryFile keeps its content on disk']
